@@ -55,7 +55,7 @@ def fid_packing(n0: int, n1: int, n2: int) -> bool:
     for d in root.fi_descs:
         ok = ok & (d.extent_location() == first + off // 2048)
         off = off + udfmod.UDFFileIdentifierDescriptor.length(len(d.fi))
-    ok = ok & (root.info_len == off)
+    ok = ok & (root.info_len == off) & (root.log_block_recorded == h.cdiv(off, 2048))
     ok = ok & skel.spans_ok(iso, skel.collect_spans(iso))
     return h.post(ok)
 
@@ -121,6 +121,9 @@ def udf_reader(l0: int, l1: int, l2: int) -> bool:
             ok = ok & (t[2] == rec.get_data_length())
             if bool(rec.get_data_length() != 0) and rec.inode is not None and t[4] == 5:
                 ok = ok & (info['part_start'] + t[3] == rec.inode.extent_location())
+    if h.P.get('linkcount'):
+        # C10.b/udf_linkcount: ONLY the File Link Count of non-directory File Entries (kept apart: see known_findings.txt)
+        return h.post(info['file_link_ok'])
     # symbolic links: the recorded path components decode to the target the user passed
     want = {'/'.join([''] + [x.encode('latin-1').hex() for x in p.strip('/').split('/')]): t for p, t in (built.get('udf_symlinks') or {}).items()}
     if sorted(want) != sorted(info['symlinks']):
